@@ -427,3 +427,23 @@ func asStmt(n *N) *N {
 	}
 	return Expr(n)
 }
+
+// Corpus streams the programs shared by the checks that quantify over "all
+// programs of C01's generators" (C04, C05, C17, C20): every family except the
+// largest control-skeleton and operator budgets.
+func Corpus(thorough bool, yield func(Program)) {
+	f2max, f4ops := 3, 2
+	if thorough {
+		f2max, f4ops = 4, 3
+	}
+	for n := 1; n <= f2max; n++ {
+		F2(n, F2All, yield)
+	}
+	F1Values(1, ValuePool(9), yield)
+	F1Prefix(ValuePool(6), yield)
+	F3(yield)
+	F4(f4ops, yield)
+	F5(yield)
+	F6(yield)
+	C02(thorough, yield)
+}
